@@ -13,7 +13,7 @@ for d in /verif/seeded/*${F}*/; do
   if [ $rc -eq 1 ] && echo "$out" | grep -aq "^VIOLATION property=$prop"; then
     echo "$name: caught by $prop $T ($(echo "$out" | grep -a '^  signature:' | head -1 | cut -c14-130))"
   else
-    echo "$name: MISSED by $prop $T (exit=$rc)"
+    if [ "$(jq -r '.missed // false' $d/meta.json)" = "true" ]; then echo "$name: not caught by $prop $T (recorded as a miss, see meta.json and DESIGN.md 9.7)"; else echo "$name: MISSED by $prop $T (exit=$rc)"; fi
   fi
 done
 (cd /verif/mc && cargo build --offline --profile mc >/dev/null 2>&1)
